@@ -26,6 +26,12 @@
 (*    an object is tracked across critical sections only in runs that can   *)
 (*    reach exactly one object per table (Run.objs = 1, "strict"),          *)
 (*    otherwise every critical section is checked on its own.               *)
+(* THREAD-COUNT HISTORIES: a run builds and sets up its objects with Run.T  *)
+(* threads and then repeats the compute calls on the SAME objects once per  *)
+(* entry of Run.hist (a "phase" mark carries the new thread count; targets  *)
+(* are fresh, nothing is set up again).  Every phase must reproduce the     *)
+(* calls, work items and outputs of the 1-thread reference: nothing of an   *)
+(* earlier call or phase may leak into a later result.                      *)
 (* Unexplained lines are collected (line, reason); the rest of that run is  *)
 (* skipped (and the rest of the instance if the reference run is bad).      *)
 EXTENDS ThreadRules, TraceLib
@@ -40,7 +46,7 @@ BagAdd(b, x) == IF x \in DOMAIN b THEN [b EXCEPT ![x] = @ + 1]
 EmptyBag == [x \in {} |-> 0]
 
 NewRun(r) ==
-  [strict |-> r.objs = 1, mats |-> r.mats, isref |-> r.ref, T |-> r.T, raised |-> r.raised,
+  [strict |-> r.objs = 1, mats |-> r.mats, isref |-> r.ref, T |-> r.T, nph |-> Len(r.hist), ph |-> 0,
    cs |-> << FreeCS, FreeCS, FreeCS >>,
    obj |-> [i \in 1..5 |-> [flag |-> FALSE, fills |-> 0]],
    nEnd |-> [i \in 1..5 |-> 0],
@@ -49,12 +55,12 @@ NewRun(r) ==
    scMiss |-> {}, scSeen |-> {},
    call |-> 0, inCall |-> FALSE, items |-> EmptyBag, slot |-> {}, bpdirty |-> {}, distdirty |-> {},
    redbp |-> RedIdle, reddist |-> RedIdle, outs |-> {}]
-NoRun == [strict |-> FALSE, mats |-> 0, isref |-> FALSE, T |-> 0, raised |-> FALSE, cs |-> << FreeCS, FreeCS, FreeCS >>,
+NoRun == [strict |-> FALSE, mats |-> 0, isref |-> FALSE, T |-> 0, nph |-> 0, ph |-> 0, cs |-> << FreeCS, FreeCS, FreeCS >>,
           obj |-> [i \in 1..5 |-> [flag |-> FALSE, fills |-> 0]], nEnd |-> [i \in 1..5 |-> 0],
           r0 |-> {}, rdy |-> {}, seen1 |-> {}, ctor |-> {}, cache |-> EmptyBag, miss |-> {}, scMiss |-> {}, scSeen |-> {},
           call |-> 0, inCall |-> FALSE, items |-> EmptyBag, slot |-> {}, bpdirty |-> {}, distdirty |-> {},
           redbp |-> RedIdle, reddist |-> RedIdle, outs |-> {}]
-NoRef == [ok |-> FALSE, names |-> <<>>, items |-> <<>>, outs |-> {}, inst |-> 0, wl |-> ""]
+NoRef == [ok |-> FALSE, names |-> <<>>, items |-> <<>>, outs |-> {}, inst |-> 0, wl |-> "", phaseCall |-> 0]
 
 InCS(t, id) == m.cs[CritOf(id)].owner = t /\ m.cs[CritOf(id)].id = id
 ZIn(id) == m.cs[CritOf(id)].z
@@ -200,15 +206,26 @@ CloseOK == IF ~m.inCall THEN "ok"
 VMark(r) ==
   IF CloseOK # "ok" THEN CloseOK
   ELSE IF r.name = "end" THEN "ok"
+  ELSE IF r.name = "phase" THEN
+       \* the next thread count of the history: the previous phase must have made all calls of the reference
+       IF m.ph + 1 > m.nph THEN "trace-malformed"
+       ELSE IF m.isref THEN "ok"
+       ELSE IF m.ph = 0 /\ m.call # ref.phaseCall THEN "calls-differ-from-reference"
+       ELSE IF m.ph > 0 /\ m.call # Len(ref.names) THEN "calls-differ-from-reference"
+       ELSE "ok"
   ELSE IF m.isref THEN "ok"
   ELSE IF m.call + 1 > Len(ref.names) \/ ref.names[m.call + 1] # r.name THEN "calls-differ-from-reference"
   ELSE "ok"
 UMark(r) ==
   LET closed == [m EXCEPT !.inCall = FALSE, !.items = EmptyBag, !.slot = {}, !.distdirty = {}] IN
-  IF r.name = "end" THEN closed ELSE [closed EXCEPT !.inCall = TRUE, !.call = @ + 1]
+  IF r.name = "end" THEN closed
+  ELSE IF r.name = "phase" THEN [closed EXCEPT !.ph = @ + 1, !.call = IF m.isref THEN @ ELSE ref.phaseCall]
+  ELSE [closed EXCEPT !.inCall = TRUE, !.call = @ + 1]
 RefAfterMark(r) ==
   LET r1 == IF m.isref /\ m.inCall THEN [ref EXCEPT !.items = Append(@, m.items)] ELSE ref IN
-  IF m.isref /\ r.name # "end" THEN [r1 EXCEPT !.names = Append(@, r.name)] ELSE r1
+  IF ~m.isref \/ r.name = "end" THEN r1
+  ELSE IF r.name = "phase" THEN [r1 EXCEPT !.phaseCall = m.call]      \* calls before it belong to the set-up part
+  ELSE [r1 EXCEPT !.names = Append(@, r.name)]
 
 \* numeric outputs
 MaxOK(r) == /\ \A i \in 1..Len(r.v) : Abs(r.v[i]) <= r.mx
@@ -216,7 +233,7 @@ MaxOK(r) == /\ \A i \in 1..Len(r.v) : Abs(r.v[i]) <= r.mx
 VOut(r) ==
   IF r.nonfinite # 0 THEN "output-not-finite"
   ELSE IF r.kind = "fx" /\ ~MaxOK(r) THEN "output-malformed"
-  ELSE IF r.name \in m.outs THEN "output-malformed"
+  ELSE IF << r.ph, r.name >> \in m.outs \/ r.ph < 0 \/ r.ph > m.nph THEN "output-malformed"
   ELSE IF m.isref THEN "ok"
   ELSE IF ~(\E p \in ref.outs : p[1] = r.name) THEN "output-not-in-reference"
   ELSE LET q == TraceLog[RefLineOf(r.name)] IN
@@ -231,9 +248,10 @@ VEnd(r) ==
   ELSE IF \E c \in 1..3 : m.cs[c].owner # -1 THEN "critical-section-never-left"
   ELSE IF m.r0 # {} \/ m.ctor # {} THEN "initialisation-never-finished"
   ELSE IF m.inCall THEN "trace-malformed"
-  ELSE IF m.isref THEN "ok"
-  ELSE IF m.call # Len(ref.names) THEN "calls-differ-from-reference"
-  ELSE IF m.outs # { p[1] : p \in ref.outs } THEN "outputs-missing"
+  ELSE IF m.isref THEN (IF m.nph = 1 /\ m.ph = 1 THEN "ok" ELSE "trace-malformed")
+  ELSE IF m.ph # m.nph \/ m.call # Len(ref.names) THEN "calls-differ-from-reference"
+  \* every phase delivered every output of the reference (outputs of the set-up part carry phase 0)
+  ELSE IF \E p \in 1..m.nph : { x[2] : x \in { y \in m.outs : y[1] \in {0, p} } } # { q[1] : q \in ref.outs } THEN "outputs-missing"
   ELSE "ok"
 
 IsLazy(e) == e \in {"lazy.read", "lazy.enter", "lazy.leave", "lazy.fill.begin", "lazy.fill.end", "lazy.flag", "lazy.use"}
@@ -257,14 +275,8 @@ Update(r) ==
     [] IsWork(r.e) -> UWork(r)
     [] r.e = "sc.get" -> UScat(r)
     [] r.e = "mark" -> UMark(r)
-    [] r.e = "Out" -> [m EXCEPT !.outs = @ \cup {r.name}]
+    [] r.e = "Out" -> [m EXCEPT !.outs = @ \cup {<< r.ph, r.name >>}]
     [] OTHER -> m
-
-\* Known finding C18-threads-raised (known_findings.jsonl): BackProjectorByBin::set_up sizes the per-thread images by
-\* the number of threads at set_up; asking for more threads afterwards makes back_project index past the end (crash).
-\* The driver exercises this in dedicated runs (Run.raised, always the last run of an instance); whatever goes wrong
-\* in such a run is attributed to that finding, everything else is "new".
-Classify(v) == IF m.raised THEN "C18-threads-raised" ELSE v
 
 Init == l = 1 /\ m = NoRun /\ ref = NoRef /\ bad = <<>> /\ skip = TRUE /\ nchk = [ev |-> 0, out |-> 0, runs |-> 0]
 Next ==
@@ -282,7 +294,7 @@ Next ==
             ELSE /\ m' = NewRun(r) /\ skip' = ~(ref.ok /\ r.inst = ref.inst) /\ UNCHANGED << ref, bad, nchk >>
        [] r.e \in {"Abort", "Hang"} ->
             \* a crashed / hung child process: always reported (also when the run was being skipped)
-            /\ bad' = Append(bad, << l, Classify(Verdict(r)) >>) /\ skip' = TRUE /\ ref' = [ref EXCEPT !.ok = FALSE] /\ UNCHANGED << m, nchk >>
+            /\ bad' = Append(bad, << l, Verdict(r) >>) /\ skip' = TRUE /\ ref' = [ref EXCEPT !.ok = FALSE] /\ UNCHANGED << m, nchk >>
        [] OTHER ->
             IF skip THEN UNCHANGED << m, ref, bad, skip, nchk >>
             ELSE LET v == Verdict(r) IN
@@ -295,7 +307,7 @@ Next ==
                                  ELSE IF r.e = "EndRun" THEN [nchk EXCEPT !.runs = @ + 1]
                                  ELSE [nchk EXCEPT !.ev = @ + N(r)]
                       /\ UNCHANGED << bad, skip >>
-                 ELSE /\ bad' = (IF Len(bad) < 200 THEN Append(bad, << l, Classify(v) >>) ELSE bad)
+                 ELSE /\ bad' = (IF Len(bad) < 200 THEN Append(bad, << l, v >>) ELSE bad)
                       /\ skip' = TRUE
                       /\ ref' = IF m.isref THEN [ref EXCEPT !.ok = FALSE] ELSE ref
                       /\ UNCHANGED << m, nchk >>
